@@ -44,8 +44,27 @@ const unit = 1e-3 // mm
 
 func (s *Scenario) runs() ([]c17.Run, error) { return c17.TokenRuns(s.Toks) }
 
-func faces() ([]*canvas.FontFace, error) {
-	f0, err := c17.Face(0, 12)
+// variantOf derives the face variant of the first face from the scenario (one layout in three uses a sub- or
+// superscript face: scaled size, offsets): it must not affect any post-condition.
+func variantOf(s *Scenario) canvas.FontVariant {
+	h := 7*len(s.Toks) + 3*s.WSel + s.Indent + len(s.Align) + int(s.Align[0])
+	switch h % 6 {
+	case 4:
+		return canvas.FontSubscript
+	case 5:
+		return canvas.FontSuperscript
+	}
+	return canvas.FontNormal
+}
+
+func faces(v canvas.FontVariant) ([]*canvas.FontFace, error) {
+	var f0 *canvas.FontFace
+	var err error
+	if v == canvas.FontNormal {
+		f0, err = c17.Face(0, 12)
+	} else {
+		f0, err = c17.FaceVariant(0, 12, v)
+	}
 	if err != nil {
 		return nil, err
 	}
@@ -62,12 +81,12 @@ func faces() ([]*canvas.FontFace, error) {
 func boxWidth(s *Scenario, runs []c17.Run, fs []*canvas.FontFace, indent float64) float64 {
 	oneLine := indent
 	for _, r := range runs {
-		oneLine += fs[r.Font].TextWidth(strings.ReplaceAll(r.Text, "\n", ""))
+		oneLine += fs[r.Font].TextWidth(strings.NewReplacer("\n", "", "\r", "").Replace(r.Text))
 	}
 	// the widest chunk between breakable white space (a selector only; hyphens may still break it)
 	long := 0.0
 	for _, r := range runs {
-		for _, chunk := range strings.FieldsFunc(r.Text, func(c rune) bool { return c == ' ' || c == '\u3000' || c == '\n' }) {
+		for _, chunk := range strings.FieldsFunc(r.Text, func(c rune) bool { return c == ' ' || c == '\u3000' || c == '\n' || c == '\r' }) {
 			if w := fs[r.Font].TextWidth(chunk); w > long {
 				long = w
 			}
@@ -117,6 +136,7 @@ type LineEv struct {
 	Y     int    `json:"y"`
 	Asc   int    `json:"asc"`
 	Desc  int    `json:"desc"`
+	Bot   int    `json:"bot"` // max over spans of descent + line gap
 	Adj   int    `json:"adj"`
 	Spans []Span `json:"spans"`
 }
@@ -135,6 +155,7 @@ type Event struct {
 	Align   string   `json:"align"`
 	Ovf     bool     `json:"ovf"`
 	U       int      `json:"u"`
+	Ls      int      `json:"ls"` // line stretch in thousandths
 	Lines   []LineEv `json:"lines"`
 	Bounds  [4]int   `json:"bounds"`
 	Heights [2]int   `json:"heights"`
@@ -179,7 +200,7 @@ type observed struct {
 
 // layout executes one scenario on the real library and observes it.
 func layout(s *Scenario, k int) (*observed, error) {
-	fs, err := faces()
+	fs, err := faces(variantOf(s))
 	if err != nil {
 		return nil, err
 	}
@@ -195,12 +216,12 @@ func layout(s *Scenario, k int) (*observed, error) {
 	}
 	// vertical alignment and line stretch are derived from the scenario (they must not affect any post-condition)
 	valign := []canvas.TextAlign{canvas.Top, canvas.Center, canvas.Bottom}[(s.WSel+len(s.Toks))%3]
-	lineStretch := 0.25 * float64((len(s.Toks)+s.Indent)%2)
+	lineStretch := []float64{0, 0.5, -0.2}[(len(s.Toks)+s.Indent+s.WSel)%3]
 	full := ""
 	for _, r := range runs {
 		full += r.Text
 	}
-	ev := &Event{K: k, Text: runes(full), Width: qi(width), Indent: qi(indent), Align: s.Align, Lines: []LineEv{}}
+	ev := &Event{K: k, Text: runes(full), Width: qi(width), Indent: qi(indent), Align: s.Align, Lines: []LineEv{}, Ls: int(math.Round(lineStretch * 1000))}
 	for _, t := range s.Toks {
 		if t == "heb" {
 			ev.Bidi = true
@@ -246,6 +267,9 @@ func layout(s *Scenario, k int) (*observed, error) {
 				}
 				if e.Desc > ln.Desc {
 					ln.Desc = e.Desc
+				}
+				if b := qi(m.Descent + m.LineGap); b > ln.Bot {
+					ln.Bot = b
 				}
 				// what was added to the natural advance of the glue glyphs (0 = left unstretched)
 				for _, g := range sp.Glyphs {
@@ -438,7 +462,7 @@ func gcfg(mode string, ntok, nrand, maxw int, indents string, mc bool) string {
 func (d Driver) Run(c *core.Ctx) error {
 	c.Rule = "scenario = (token list over {on, women, wo+soft hyphen+men, new / ne+soft hyphen+w (second face), space, no-break space, ideographic space, hyphen, newline}, width selector relative to the measured text, alignment L/R/C/J, indent 0/5 mm), plus right-to-left paragraphs with embedded left-to-right words and narrow justified paragraphs of 9..14 words at 20..23 mm, laid out by RichText.ToText with DejaVuSerif/EBGaramond 12 pt; every layout is one event judged by Trace_Layout. non-trivial = the layout has at least two lines and at least one visible character; distinct by scenario"
 	c.Assumptions = []string{
-		"mixed-direction text (right-to-left paragraphs with embedded left-to-right words; Hebrew letters are .notdef glyphs in the bundled fonts) is only checked for stacking, pairwise disjoint spans, inside-the-box and Bounds/Heights; everything else uses left-to-right text; horizontal writing mode, height 0 (unlimited), vertical alignment Top/Center/Bottom and line stretch 0/0.25 derived from the scenario",
+		"mixed-direction text (right-to-left paragraphs with embedded left-to-right words; Hebrew letters are .notdef glyphs in the bundled fonts) is only checked for stacking, pairwise disjoint spans, inside-the-box and Bounds/Heights; everything else uses left-to-right text; horizontal writing mode, height 0 (unlimited), vertical alignment Top/Center/Bottom, line stretch 0/0.5/-0.2 and the variant of the first face (normal/subscript/superscript) derived from the scenario",
 		"observed lengths are quantised to 1e-3 mm; alignment tolerances 2e-3 mm, justified lines (glue glyphs+1)*size/unitsPerEm + 2e-3 mm (glue is stretched in whole font units)",
 		"white space dropped next to a line break may precede or follow an explicit newline (the library also drops spaces that follow a newline)",
 		"a soft hyphen directly followed by white space or the end of the text is not decided (break at the hyphen or at the space)",
@@ -530,8 +554,8 @@ func (d Driver) Run(c *core.Ctx) error {
 		}()
 	}
 	maxw := c.Pick(5, 6)
-	for nt := 1; nt <= 2; nt++ {
-		run(tlc.Opts{Module: "Layout", Config: gcfg("exh", nt, 0, maxw, "{0, 1}", false)})
+	for nt := 1; nt <= 2; nt++ { // with CR LF and a lone CR
+		run(tlc.Opts{Module: "Layout", Config: gcfg("exh2", nt, 0, maxw, "{0, 1}", false)})
 	}
 	run(tlc.Opts{Module: "Layout", Config: gcfg("exh", 3, 0, maxw, map[bool]string{false: "{0}", true: "{0, 1}"}[c.Thorough()], false)})
 	if c.Thorough() {
